@@ -11,12 +11,11 @@ comments, all operations of `Model.Render.Op`, batch and non-batch, with and wit
 * `Py.repr_roundtrip` (imported): `pyParseStr (pyRepr s) = some s`;
 * `C08.parse_pp`: the expression printer is inverted by the expression parser on every well-formed AST;
 * `C08.render_wf`: every renderer produces a well-formed AST;
-* `C08.syntax_partial` / `C08.syntax_noncomment`: hence the rendered text parses and denotes the intended
-  call (`canon`), provided the names embedded *naively* by the two table-comment renderers are plain;
-* `C08.syntax_counterexample*`: without that proviso the statement is false on the unchanged code (F8).
+* `C08.syntax_full` (`syntax` is a Lean keyword): hence the rendered text of **every** operation parses and denotes the intended call
+  (`canon`), at full strength (the table-comment renderers use `%r` since the F8 fix).
 
 Not proved here: that SQLAlchemy's `repr(type)` / DDL compilation agree (outside the model; observed by
-the exec-vs-invoke oracle on every run), and the evaluation half (`evalCall`) of the round trip.
+the exec-vs-invoke oracle on every run).
 -/
 namespace C08
 open Model.Py Model.Render Spec.Render
@@ -26,67 +25,40 @@ theorem parse_pp (isP : Char → Bool) (e : PyAst) (h : wf true e = true) :
     parse (pp isP e) = some (canon e) := Model.Py.parse_pp isP e h
 
 /-- **Every renderer produces a well-formed expression.** Names are arbitrary; the fragments rendered by
-SQLAlchemy are well-formed (`opOk`); the naive embeddings of the table-comment renderers are plain (`plainOk`). -/
-theorem render_wf (c : Ctx) (o : Op) (hc : ctxOk c = true) (ho : opOk o = true) (hp : plainOk c o = true) :
-    wf true (renderOp c o) = true := wf_renderOp c hc o ho hp
+SQLAlchemy are well-formed (`opOk`). -/
+theorem render_wf (c : Ctx) (o : Op) (hc : ctxOk c = true) (ho : opOk o = true) :
+    wf true (renderOp c o) = true := wf_renderOp c hc o ho
 
-/-- C08.syntax at full strength: the text of every rendered operation is a valid call denoting the
-intended call. **False on the unchanged tree** (F8), see `syntax_counterexample`. -/
-def syntax_statement : Prop :=
-  ∀ (c : Ctx) (o : Op), ctxOk c = true → opOk o = true →
-    parse (pp c.isP (renderOp c o)) = some (canon (renderOp c o))
-
-/-- C08.syntax under the extra hypothesis `plainOk` (table-comment names without `'`, `\`, line break, NUL). -/
-theorem syntax_partial (c : Ctx) (o : Op) (hc : ctxOk c = true) (ho : opOk o = true) (hp : plainOk c o = true) :
+/-- **C08.syntax** (named `syntax_full`: `syntax` is a Lean keyword): for every context, every operation and every choice of names, the rendered text is a
+syntactically valid call and denotes the intended call. -/
+theorem syntax_full (c : Ctx) (o : Op) (hc : ctxOk c = true) (ho : opOk o = true) :
     parse (pp c.isP (renderOp c o)) = some (canon (renderOp c o)) :=
-  parse_pp c.isP _ (render_wf c o hc ho hp)
+  parse_pp c.isP _ (render_wf c o hc ho)
 
-/-- C08.syntax at full strength for every operation other than a non-batch table-comment operation:
-all names are arbitrary strings. -/
-theorem syntax_noncomment (c : Ctx) (o : Op) (hc : ctxOk c = true) (ho : opOk o = true)
-    (h : isComment o = false ∨ c.batch = true) :
-    parse (pp c.isP (renderOp c o)) = some (canon (renderOp c o)) := by
-  apply syntax_partial c o hc ho
-  cases o <;> simp_all [plainOk, isComment]
-
-/-! ### F8: the witnesses (replayed on the implementation on every run) -/
-
-def ctx0 : Ctx := { batch := false, opPrefix := S "op.", saPrefix := S "sa.", isP := fun _ => true }
-
-/-- `op.drop_table_comment('it's', existing_comment=None, schema=None)` is not Python -/
-def witness : Op := .dropTableComment (S "it's") none none
-
-theorem witness_unparsable : (parse (pp ctx0.isP (renderOp ctx0 witness))).isNone = true := by decide +kernel
-
-theorem syntax_counterexample : ¬ syntax_statement := by
-  intro h
-  have h1 := h ctx0 witness (by decide +kernel) (by decide +kernel)
-  have h2 := witness_unparsable
-  rw [h1] at h2
-  exact Bool.noConfusion h2
-
-/-- table `a\tb` (backslash, `t`): the rendered text is valid Python naming another table (`a<TAB>b`) -/
-def witness2 : Op := .dropTableComment (S "a\\tb") none none
-
-theorem syntax_counterexample_wrong_name :
-    denotesB ctx0.isP (pp ctx0.isP (renderOp ctx0 witness2)) (renderOp ctx0 witness2) = false
-    ∧ (parse (pp ctx0.isP (renderOp ctx0 witness2))).isSome = true := by
-  constructor <;> decide +kernel
+/-- no renderer uses a naive embedding any more: `canon` only erases the layout -/
+theorem syntax_denotes (c : Ctx) (o : Op) (hc : ctxOk c = true) (ho : opOk o = true) :
+    Denotes c.isP (pp c.isP (renderOp c o)) (renderOp c o) := by
+  simp [Denotes, syntax_full c o hc ho]
 
 /-! ### non-vacuity -/
+
+def ctx0 : Ctx := { batch := false, opPrefix := S "op.", saPrefix := S "sa.", isP := fun _ => true }
 
 /-- the hypotheses are satisfiable by an operation with awkward names, `op.f()` and an opaque type -/
 example : ctxOk ctx0 = true ∧
     opOk (.createIndex (.conv (S "ix_it's")) (S "it's \"t\"\\") (some (S "s'x")) [.col (S "na\"me"),
-      .expr (.call (S "sa.literal_column") Layout.inline [pos (.str (S "lower(x)"))])] true [] none) = true := by decide +kernel
+      .expr (.call (S "sa.literal_column") Layout.inline [pos (.str (S "lower(x)"))])] true [] none) = true := by
+  decide +kernel
 
 example : String.ofList (pp ctx0.isP (renderOp ctx0 (.dropColumn (S "it's") (some (S "s\\x")) (S "c\"d")))) =
     "op.drop_column(\"it's\", 'c\"d', schema='s\\\\x')" := by decide +kernel
 
-/-- the parser rejects text that is not a call -/
-example : (parse (S "op.drop_table('t'")).isNone = true ∧ (parse (S "op.drop_table('t',, )")).isNone = true := by decide +kernel
+/-- the former F8 witness now renders with repr and is read back -/
+example : (parse (pp ctx0.isP (renderOp ctx0 (.dropTableComment (S "it's") none (some (S "a\\tb")))))).isSome = true := by
+  decide +kernel
 
-/-- the plain hypothesis is used: the comment renderer on a plain name is fine -/
-example : plainOk ctx0 (.dropTableComment (S "plain name") none (some (S "sch"))) = true := by decide +kernel
+/-- the parser rejects text that is not a call; the naive embedding of `it's` is still not a literal -/
+example : (parse (S "op.drop_table('t'")).isNone = true ∧ (parse (S "op.drop_table('t',, )")).isNone = true
+    ∧ (parse (S "op.drop_table_comment('it's')")).isNone = true := by decide +kernel
 
 end C08
